@@ -36,6 +36,7 @@ func main() {
 	extractUrl()
 	extractStages()
 	extractExtractors()
+	extractHtml()
 	extractArchiver()
 	extractPipeline()
 
